@@ -445,6 +445,14 @@ def c13(v):
                 return f"{sc} raised during the sleep after attempt {a} but the library went on"
             if v.delivery[:2] != ["cancel_sleep", sc]:
                 return f"{sc} raised during the sleep after attempt {a} but {v.delivery[:3]} left the call"
+    for a in range(1, v.n + 1):
+        bc = v.env["bs_cancel"][a - 1] if a - 1 < len(v.env["bs_cancel"]) else None
+        bs = [i for i, e in enumerate(v.seg[a]) if e[0] == "BS"]
+        if bc and bs:
+            if len(v.seg[a]) > bs[0] + 1 or a < v.n:
+                return f"{bc} raised inside before_sleep after attempt {a} but the library went on: {v.seg[a][bs[0] + 1:bs[0] + 2] or 'invoked again'}"
+            if v.delivery[:2] != ["cancel_sleep", bc]:
+                return f"{bc} raised inside before_sleep after attempt {a} but {v.delivery[:3]} left the call"
     return None
 
 
